@@ -244,6 +244,46 @@ def _extract_chapter(
  "H15_default_charref_conversion": (H, [("""        super().__init__(convert_charrefs=True)
         # Root node""", """        super().__init__()
         # Root node""")]),
+ # ---- round 3b: import / alias styles and further ordinary rewrites
+ "H16_html_library_import_as_alias": (H, [("from html.parser import HTMLParser\n", "import html.parser as _hp\n\n_ParserBase = _hp.HTMLParser\n"),
+                                          ("class _HtmlTreeBuilder(HTMLParser):", "class _HtmlTreeBuilder(_ParserBase):")]),
+ "H17_relative_imports": (MH, [("from sharepoint2text.parsing.extractors.html_extractor import read_html\n", "from .html_extractor import read_html\n")]),
+ "H18_msg_module_alias_import": (M, [("""from sharepoint2text.parsing.extractors.html_extractor import (
+    _HtmlTextExtractor,
+    _HtmlTreeBuilder,
+)
+""", """import sharepoint2text.parsing.extractors.html_extractor as _hx
+"""), ("parser = _HtmlTreeBuilder()", "parser = _hx._HtmlTreeBuilder()"), ("extractor = _HtmlTextExtractor(root)", "extractor = _hx._HtmlTextExtractor(root)")]),
+ "H19_html_truthiness_index_extend": (H, [("""        if self.skip_depth > 0:
+            if tag == self._skip_tag:
+                self.skip_depth -= 1
+            return
+""", """        if self.skip_depth:
+            if tag == self._skip_tag:
+                self.skip_depth -= 1
+            return
+"""), ("""        self.stack[-1]["children"].append(node)
+""", """        parent = self.stack[len(self.stack) - 1]
+        parent["children"] += [node]
+""")]),
+ "H20_epub_data_sink_chosen_by_expression": (E, [("""        if self._in_cell:
+            self._current_cell.append(data)
+            return
+
+        self.text_parts.append(data)
+""", """        sink = self._current_cell if self._in_cell else self.text_parts
+        sink.append(data)
+""")]),
+ "H21_msg_sniffer_tuple_and_any": (M, [("""    if lowered.startswith("<!doctype") or "<html" in lowered or "<body" in lowered:
+        return True
+""", """    if lowered.startswith(("<!doctype",)) or any(mark in lowered for mark in ("<html", "<body")):
+        return True
+""")]),
+ "H22_mhtml_buffer_filled_by_write": (MH, [("""        html_buffer = io.BytesIO(html_content)
+""", """        html_buffer = io.BytesIO()
+        html_buffer.write(html_content)
+        html_buffer.seek(0)
+""")]),
  "B17_mhtml_yields_its_own_rendering": (MH, [("""            yield result
 """, """            result.content = html_content.decode("utf-8", "replace")
             yield result
@@ -274,7 +314,7 @@ try:
         p = f"{d}/{rel}"
         s = open(p).read()
         for a, b in edits:
-            assert s.count(a) == 1 or (s.count(a) > 1 and "\n" not in a and name.startswith("H1")), (name, a[:60], s.count(a))
+            assert s.count(a) == 1 or (s.count(a) > 1 and "\n" not in a and name.startswith(("H1", "H2"))), (name, a[:60], s.count(a))
             s = s.replace(a, b)
         open(p, "w").write(s)
         r = subprocess.run(["timeout", "600", "./check", "C17"], cwd=ROOT, env=dict(os.environ, VERIF_REPO=d), capture_output=True, text=True)
